@@ -28,8 +28,10 @@ namespace {
 enum HK { H_LOG_INV = 1, H_LOG_RET, H_TID, H_REC, H_PHASE };
 
 // ops: rec <thread> <level> <module 0..2> <len> <with_args> <yields> <sleep_ms>
-//      cut <new rec level|-1> <new file level|-1> <via module-string API>     phase boundary: all threads join; file sink disabled and checked;
-//                                                                             default levels possibly changed; file sink re-enabled
+//      cut <new rec level|-1> <new file level|-1> <via module-string API> <file_off> <rec_off>
+//          phase boundary: all threads join; file sink disabled and checked; default levels possibly changed; for the next phase the
+//          file sink is re-enabled unless file_off, the recording sink is disabled if rec_off (one sink off while the other stays on)
+// cfg wall_frac_ms: the virtual wall clock starts that many ms into a second (so that stalls and sleeps cross a second boundary)
 void generate(sim::Rng &r, uint64_t seed, const std::string &tier, sim::Plan &p) {
   bool thorough = tier == "thorough";
   long maxlen = r.pick((const long[]){40, 100, 2047, 2048, 2049, 5000, 100 << 10});
@@ -47,14 +49,16 @@ void generate(sim::Rng &r, uint64_t seed, const std::string &tier, sim::Plan &p)
   unsigned fmask = 0;
   if (r.chance(500)) fmask |= sim::F_SPURIOUS;
   if (r.chance(400)) fmask |= sim::F_LATE_WAKE;
+  if (r.chance(450)) fmask |= sim::F_STALL;
   p.cfg["fmask"] = fmask;
+  p.cfg["wall_frac_ms"] = r.chance(600) ? r.range(975, 999) : r.range(0, 999);
   p.cfg["fseed"] = (long)(r.next() >> 2);
   p.cfg["starve_max"] = nthr + 1;
   p.cfg["pct_horizon"] = 1200;
   int n = (int)r.range(1, thorough ? 60 : 24);
   for (int i = 0; i < n; ++i) {
     sim::Op op;
-    if (i > 2 && r.chance(80)) { op.kind = "cut"; op.a = {r.chance(500) ? -1 : r.range(0, 7), r.chance(500) ? -1 : r.range(0, 7), r.below(2)}; p.ops.push_back(op); continue; }   // [new recording-sink level, new file-sink level, via setLevel("", l) or setLevel(l)]
+    if (i > 2 && r.chance(80)) { op.kind = "cut"; long off = (long)r.below(10); op.a = {r.chance(500) ? -1 : r.range(0, 7), r.chance(500) ? -1 : r.range(0, 7), (long)r.below(2), off == 0 ? 1 : 0, off == 1 ? 1 : 0}; p.ops.push_back(op); continue; }   // [new recording-sink level, new file-sink level, via setLevel("", l) or setLevel(l)]
     op.kind = "rec";
     long len;
     unsigned x = (unsigned)r.below(100);
@@ -87,10 +91,10 @@ struct Rec { long t, seq, level, mod, len; bool with_args; int phase; };
 // recording sink through the public Sink API.  Everything it stores goes through libsim's history.
 struct RecordingSink : public log::Sink {
   std::vector<std::string> got;     // written only under the logging front end's global lock
-  std::vector<long> tid, level; std::vector<bool> trunc; std::vector<std::string> mod, func, file; std::vector<int> line;
+  std::vector<long> tid, level, sec, usec; std::vector<bool> trunc; std::vector<std::string> mod, func, file; std::vector<int> line;
   void onLogFrontEnd(const LogContent *c) override {
     got.emplace_back(c->text_ptr ? std::string(c->text_ptr, c->text_len) : std::string());
-    tid.push_back(c->thread_id); level.push_back(c->level); trunc.push_back(c->text_trunc);
+    tid.push_back(c->thread_id); level.push_back(c->level); trunc.push_back(c->text_trunc); sec.push_back((long)c->timestamp.sec); usec.push_back((long)c->timestamp.usec);
     mod.emplace_back(c->module_id ? c->module_id : ""); func.emplace_back(c->func_name ? c->func_name : ""); file.emplace_back(c->file_name ? c->file_name : ""); line.push_back(c->line);
   }
 };
@@ -110,8 +114,10 @@ void logger_main(long t, int phase) {
     if (r.t != t || r.phase != phase) continue;
     std::string text = make_text(r.t, r.seq, r.len);
     sim::hist(H_LOG_INV, (long)i);
+    sim::cell_set(1000 + 2 * (int)i, (long)((sim::now_ns() + sim::wall_offset_ns()) / 1000));
     if (r.with_args) LogPrintfFunc(MODS[r.mod], "fn", "/some/dir/file.cpp", 100 + (int)(i % 900), (int)r.level, 1, "%s", text.c_str());
     else LogPrintfFunc(MODS[r.mod], "fn", "/some/dir/file.cpp", 100 + (int)(i % 900), (int)r.level, 0, text.c_str());
+    sim::cell_set(1001 + 2 * (int)i, (long)((sim::now_ns() + sim::wall_offset_ns()) / 1000));
     sim::hist(H_LOG_RET, (long)i);
     sim::relevant();
     const sim::Op *op = nullptr; size_t k = 0;
@@ -120,7 +126,7 @@ void logger_main(long t, int phase) {
   }
 }
 
-struct FileRec { std::string text; char level; long tid; std::string mod; bool trunc; std::string file; int line; };
+struct FileRec { std::string text; char level; long tid; std::string mod; bool trunc; std::string file; int line; long long ts_us = -1; };
 
 bool parse_line(const std::string &ln, FileRec &fr) {
   // "L YYYY-MM-DD HH:MM:SS.uuuuuu tid module fn() text [ (TRUNCATED) ]-- file:line"
@@ -128,6 +134,12 @@ bool parse_line(const std::string &ln, FileRec &fr) {
   fr.level = ln[0];
   if (ln[12] != ' ' || ln[21] != '.' || ln[28] != ' ') return false;
   for (int i : {2, 3, 4, 5, 7, 8, 10, 11, 13, 14, 16, 17, 19, 20, 22, 23, 24, 25, 26, 27}) if (!isdigit((unsigned char)ln[(size_t)i])) return false;
+  {
+    struct tm tm; memset(&tm, 0, sizeof tm);
+    tm.tm_year = atoi(ln.substr(2, 4).c_str()) - 1900; tm.tm_mon = atoi(ln.substr(7, 2).c_str()) - 1; tm.tm_mday = atoi(ln.substr(10, 2).c_str());
+    tm.tm_hour = atoi(ln.substr(13, 2).c_str()); tm.tm_min = atoi(ln.substr(16, 2).c_str()); tm.tm_sec = atoi(ln.substr(19, 2).c_str());
+    fr.ts_us = (long long)timegm(&tm) * 1000000LL + atol(ln.substr(22, 6).c_str());       // the process runs with TZ=UTC
+  }
   size_t p = 29;
   size_t e = ln.find(' ', p); if (e == std::string::npos) return false;
   fr.tid = atol(ln.substr(p, e - p).c_str()); p = e + 1;
@@ -220,6 +232,14 @@ void check_against(const char *sink, const char *when, const std::vector<size_t>
       sim::violation("C09/record-fields-wrong", sim::fmt("%s %s: level/module/file/line of thread %ld's record #%ld are not intact", sink, when, t, r.seq));
       return;
     }
+    {
+      long long before = sim::cell_get(1000 + 2 * (int)found), after = sim::cell_get(1001 + 2 * (int)found);
+      if (fr.ts_us >= 0 && (fr.ts_us < before || fr.ts_us > after)) {
+        sim::violation("C09/record-time-wrong", sim::fmt("%s %s: thread %ld's record #%ld carries the time %lld.%06lld, the log call ran from %lld.%06lld to %lld.%06lld", sink, when, t, r.seq,
+                                                        fr.ts_us / 1000000, fr.ts_us % 1000000, before / 1000000, before % 1000000, after / 1000000, after % 1000000));
+        return;
+      }
+    }
     seen[{t, r.seq}] = 1;
     ls = r.seq + 1;
   }
@@ -234,6 +254,15 @@ void execute(const sim::Plan &plan) {
   sim::name_thread("main");
   sim::fault_scope((uint64_t)plan.get("fseed"), (unsigned)plan.get("fmask"));
   sim::fault_late_max_ms(30);
+  sim::fault_stall_max_ms(25);
+  {
+    // start the wall clock wall_frac_ms into a second
+    long frac = std::max(0L, std::min(999L, plan.get("wall_frac_ms", 0)));
+    int64_t wall = sim::now_ns() + sim::wall_offset_ns();
+    int64_t want = (wall / 1000000000LL) * 1000000000LL + frac * 1000000LL;
+    if (want < wall) want += 1000000000LL;
+    sim::set_wall_offset_ns(sim::wall_offset_ns() + (want - wall));
+  }
   sim::set_deadlock_handler([](const sim::DeadlockInfo &info) { sim::violation("C09/deadlock", "logging threads / back end blocked for ever: " + info.summary); });
   sim::set_stepcap_handler([] { sim::violation("C09/livelock", "step cap reached"); });
   sim::set_step_cap(2000000);
@@ -278,6 +307,7 @@ void execute(const sim::Plan &plan) {
   std::map<long, long> tid_of;
   std::vector<std::map<long, long>> tid_maps;   // thread ids of each phase (the kernel may hand out new ones)
   std::vector<size_t> file_expect, rec_expect;
+  bool file_on = true, rec_on = true;
   for (int ph = 0; ph < nphase; ++ph) {
     std::vector<std::thread> th;
     for (long t = 0; t < nthr; ++t) th.emplace_back(logger_main, t, ph);
@@ -288,9 +318,9 @@ void execute(const sim::Plan &plan) {
     for (size_t i = 0; i < W.recs.size(); ++i) {
       const Rec &r = W.recs[i];
       if (r.phase != ph) continue;
-      if (r.level <= rec_level) rec_expect.push_back(i);
+      if (rec_on && r.level <= rec_level) rec_expect.push_back(i);
       long lim = (r.mod == 1 && file_m1 >= 0) ? std::min(7L, file_m1) : file_level;
-      if (r.level <= lim) file_expect.push_back(i);
+      if (file_on && r.level <= lim) file_expect.push_back(i);
     }
     // everything logged before disable() returns is on disk when it returns
     sim::hist(H_PHASE, ph);
@@ -314,10 +344,14 @@ void execute(const sim::Plan &plan) {
       if (nr >= 0) { rec_level = std::min(7L, nr); if (via_str) rsink.setLevel("", (int)rec_level); else rsink.setLevel((int)rec_level); }
       if (nf >= 0) { file_level = std::min(7L, nf); if (via_str) fsink.setLevel("", (int)file_level); else fsink.setLevel((int)file_level); }
       sim::sleep_ns(1100 * 1000000LL);      // a new second: a new file name
-      fsink.enable();
+      file_on = cut->arg(3) == 0; bool want_rec = cut->arg(4) == 0;
+      if (file_on) fsink.enable(); else sim::probe("phase_with_file_sink_off");
+      if (want_rec && !rec_on) rsink.enable();
+      if (!want_rec && rec_on) { rsink.disable(); sim::probe("phase_with_recording_sink_off"); }
+      rec_on = want_rec;
     }
   }
-  rsink.disable();
+  if (rec_on) rsink.disable();
   sim::finish();
   if (sim::violation_count() == 0) {
     // recording sink: per phase the thread ids may repeat, so check phase by phase
@@ -326,7 +360,7 @@ void execute(const sim::Plan &plan) {
       std::vector<size_t> exp_ph; for (size_t i : rec_expect) if (W.recs[i].phase == ph) exp_ph.push_back(i);
       std::vector<FileRec> got;
       for (size_t k = off; k < off + exp_ph.size() && k < rsink.got.size(); ++k) {
-        FileRec fr; fr.text = rsink.got[k]; fr.level = LEVEL_CODE[rsink.level[k]]; fr.tid = rsink.tid[k]; fr.mod = rsink.mod[k]; fr.trunc = rsink.trunc[k]; fr.file = rsink.file[k]; fr.line = rsink.line[k];
+        FileRec fr; fr.text = rsink.got[k]; fr.ts_us = (long long)rsink.sec[k] * 1000000LL + rsink.usec[k]; fr.level = LEVEL_CODE[rsink.level[k]]; fr.tid = rsink.tid[k]; fr.mod = rsink.mod[k]; fr.trunc = rsink.trunc[k]; fr.file = rsink.file[k]; fr.line = rsink.line[k];
         got.push_back(fr);
       }
       check_against("recording sink", "at the end", exp_ph, got, tid_maps[(size_t)ph]);
